@@ -30,7 +30,7 @@ ASSUMPTIONS = [
     "supplied centres are compared with what was supplied, derived centres with the normalised mean of the corner unit vectors (edge centre: arc midpoint)",
     "derived Cartesian coordinates must have unit length (1e-12); after normalize_cartesian_coordinates() all Cartesian coordinates have unit length and unchanged direction (1e-12)",
 ]
-BOUNDS = {"quick": "5 grids, provenance deviations <= 2 (57 vectors), access prefixes: all 15 singles + 40 pairs, normalize at 4 positions", "thorough": "5 grids, provenance deviations <= 3, all 225 ordered pairs"}
+BOUNDS = {"quick": "5 grids, provenance deviations <= 2 (57 vectors), access prefixes: all 15 singles + 40 pairs, normalize at 4 positions", "thorough": "7 grids (also a polar cap with nodes 0.2 degrees from the south pole and a kilometre-scale patch across the antimeridian), provenance deviations <= 3, all 225 ordered pairs"}
 PROPS = ["node_lon", "node_lat", "node_x", "node_y", "node_z", "edge_lon", "edge_lat", "edge_x", "edge_y", "edge_z", "face_lon", "face_lat", "face_x", "face_y", "face_z"]
 AXES = [("nodes", ["lonlat", "xyz", "both"]), ("faces", ["none", "lonlat", "xyz", "both"]), ("edges", ["none", "lonlat", "xyz", "both"]), ("lon", ["pm180", "0-360"]), ("radius", [1.0, 6371.0])]
 
@@ -178,7 +178,7 @@ def judge(g, m, vec, sup, P, normalized, bad, face_position=True):
 def cases(tier):
     k = 2 if tier == "quick" else 3
     out = []
-    for gname in GRIDS:
+    for gname in GRIDS + (["polarcap2s", "finequads-am"] if tier == "thorough" else []):
         vs = _vectors(k)
         step = 6 if tier == "quick" else 8
         for i0 in range(0, len(vs), step):
